@@ -65,7 +65,7 @@ Proof.
     + split; [reflexivity|]. destruct (param_val en i); try discriminate; reflexivity.
   - (* subquery value *)
     inversion Ht; subst. cbn [den tr reval]. apply andb_prop in Hen. destruct Hen as [H1 H2].
-    exists KExpr, nullable, (QCol i). repeat split; auto.
+    exists KExpr, n, (QCol i). repeat split; auto.
     intros N V. rewrite N, V in H2. discriminate.
   - (* subquery condition *)
     inversion Ht; subst. cbn [den tr reval C01Monad.cden getsql]. unfold C01Monad.ev. cbn [qeval encenv col_val].
